@@ -839,6 +839,18 @@ def compute_kek(
         # We can derive the shared secret based on the DH formula.
         # s = y**x mod p
         dh_pub_key = FFCDHKey.unpack(public_key)
+
+        # The public key can come from an untrusted blob. It must be for the
+        # same group as the root key and not be one of the values that give a
+        # shared secret which does not depend on the private key.
+        if secret_parameters:
+            dh_params = FFCDHParameters.unpack(secret_parameters)
+            if dh_pub_key.field_order != dh_params.field_order or dh_pub_key.generator != dh_params.generator:
+                raise ValueError("DH public key is not for the group of the root key")
+
+        if not 1 < dh_pub_key.public_key < dh_pub_key.field_order - 1:
+            raise ValueError("DH public key value is out of range")
+
         shared_secret_int = pow(
             dh_pub_key.public_key,
             int.from_bytes(private_key, byteorder="big"),
